@@ -87,6 +87,10 @@ func newRig(o rigOpts) *rig {
 			cfg.AdapterCreator = adapter.VerifNewSessionAwareAdapterCreator(w, o.CleanerPeriod)
 		}
 	}
+	if envStr("VERIF_DEBUG_LOG", "") != "" {
+		cfg.Debugger = sio.NewPrintDebugger()
+		cfg.EIO.Debugger = eio.NewPrintDebugger()
+	}
 	r.Server = sio.NewServer(cfg)
 	if err := r.Server.Run(); err != nil {
 		panic("rig: server.Run: " + err.Error())
@@ -121,6 +125,13 @@ func (r *rig) teardown() {
 	r.mu.Lock()
 	mgrs, trs := r.mgrs, r.trs
 	r.mu.Unlock()
+	// The network goes first: a dial or a request hanging on a black-holed link holds the manager's mutexes, and Close would wait
+	// for them - with virtual time frozen meanwhile (the verdicts have been taken by now).
+	r.Net.Refuse = true
+	r.Net.CutAll()
+	if !realClock {
+		synctest.Wait()
+	}
 	for _, m := range mgrs {
 		m.Close()
 	}
@@ -130,6 +141,10 @@ func (r *rig) teardown() {
 	r.Net.CutAll()
 	for _, tr := range trs {
 		tr.CloseIdleConnections()
+	}
+	if realClock {
+		time.Sleep(200 * time.Millisecond)
+		return
 	}
 	time.Sleep(10 * time.Minute)
 	r.Net.CutAll()
@@ -231,3 +246,5 @@ func startWatchdog(t *testing.T, limit time.Duration) (stopFn func()) {
 	}()
 	return func() { close(done) }
 }
+
+type memnetLink = memnet.Link
